@@ -48,7 +48,42 @@ def check_sites():
                 i = body.index(".check_contract_in_inputs(")
                 before = [t.group(1) for t in TOKEN.finditer(body[:i])]
                 after = [t.group(1) for t in TOKEN.finditer(body[i:])]
-                out.append((fm.group(1), rel, before, after))
+                # (a) the check is UNCONDITIONAL: not inside any block / closure / match arm of the function body
+                pre = body[:i]
+                if pre.count("{") != pre.count("}") or pre.count("(") != pre.count(")"):
+                    raise TranslateError(f"{rel}:{fm.group(1)}: check_contract_in_inputs is nested inside a conditional block "
+                                         "(`if`/`match`/closure) — it must run on every path that reaches the accesses")
+                stmt_start = max(pre.rfind(";"), pre.rfind("}"), 0)
+                if not re.fullmatch(r"\s*self\s*\.\s*verifier\s*", pre[stmt_start + 1:] if stmt_start else pre):
+                    raise TranslateError(f"{rel}:{fm.group(1)}: the check is not a statement of the form `self.verifier.check_contract_in_inputs(..)?;`")
+                args_end = i + len(".check_contract_in_inputs(")
+                depth, k = 1, args_end
+                while depth:
+                    depth += {"(": 1, ")": -1}.get(body[k], 0)
+                    k += 1
+                if not re.match(r"\s*\?\s*;", body[k:]):
+                    raise TranslateError(f"{rel}:{fm.group(1)}: the result of check_contract_in_inputs is not propagated with `?;`")
+                args = [a.strip() for a in body[args_end:k - 1].split(",") if a.strip()]
+                if len(args) != 3 or not re.fullmatch(r"self\s*\.\s*panic_context", args[0]) or not re.fullmatch(r"self\s*\.\s*input_contracts", args[1]):
+                    raise TranslateError(f"{rel}:{fm.group(1)}: unexpected arguments of check_contract_in_inputs: {args}")
+                ident = re.sub(r"^&\s*", "", args[2])
+                # (b) every access to the TARGET contract names the very id expression that was checked
+                target_tokens = ("contract_size", "balance", "balance_increase", "storage_contract", "copy_from_storage_zero_fill", "read_exact")
+                for t in TOKEN.finditer(body):
+                    if t.group(1) not in target_tokens:
+                        continue
+                    dep, end_ = 1, t.end()
+                    while dep:
+                        dep += {"(": 1, ")": -1}.get(body[end_], 0)
+                        end_ += 1
+                    call_args = [re.sub(r"^&\s*", "", a.strip()) for a in body[t.end():end_ - 1].split(",")]
+                    if ident not in call_args:
+                        raise TranslateError(f"{rel}:{fm.group(1)}: `{t.group(1)}(…)` does not take the checked id `{ident}` (arguments {call_args})")
+                # (c) the checked id is read from memory / the call struct exactly once, and is not reassigned
+                root_name = re.match(r"\w+", ident).group(0)
+                if len(re.findall(r"\blet\s+(?:mut\s+)?%s\b" % re.escape(root_name), body)) != 1:
+                    raise TranslateError(f"{rel}:{fm.group(1)}: `{root_name}` is bound more than once")
+                out.append((fm.group(1), rel, before, after, ident))
     names = [o[0] for o in out]
     if len(set(names)) != len(names):
         raise TranslateError(f"duplicate site function names {names}")
@@ -132,12 +167,16 @@ def main():
          "namespace FuelVerif.Gen", "",
          "/-- (function, file, contract-state accesses textually before `check_contract_in_inputs`, accesses after it) -/",
          "def checkSites : List (String × String × List String × List String) := ["]
-    L.append(",\n".join('  ("%s", "%s", %s, %s)' % (a, b, q(c), q(d)) for a, b, c, d in sites))
+    L.append(",\n".join('  ("%s", "%s", %s, %s)' % (a, b, q(c), q(d)) for a, b, c, d, _ in sites))
     L += ["]", "", "/-- `Opcode::is_predicate_allowed` -/", "def predicateAllowed : List String := " + q(allowed), "",
           "/-- tables for which `PredicateStorage` implements `NoStorage` (every access returns UnsupportedStorageOperation) -/",
           "def predicateRefusedTables : List String := " + q(tabs), "",
           "/-- number of refusing trait impls whose every method was checked to be `Err(UnsupportedStorageOperation)` -/",
           "def predicateRefusingImpls : Nat := %d" % n, "",
+          "/-- (function, the id expression passed to `check_contract_in_inputs`): the translator verified that the check is an",
+          "unconditional statement `self.verifier.check_contract_in_inputs(self.panic_context, self.input_contracts, <id>)?;` at the top",
+          "level of the function body, and that every access to the target contract takes that same `<id>` -/",
+          "def checkedIds : List (String × String) := [" + ", ".join('("%s", "%s")' % (a, i) for a, _, _, _, i in sites) + "]", "",
           "/-- how `init_inner` sets `input_contracts` (the set `check_contract_in_inputs` consults): a fresh assignment from the new",
           "transaction's contract inputs, and no other code writes the field -/",
           "def inputContractsInit : String := \"%s\"" % init_kind, "", "end FuelVerif.Gen"]
